@@ -266,6 +266,27 @@ class SymEval:
                 if all(self.truth(self.ev(c, env2, fi)) for c in g.ifs):
                     res.append(self.ev(e.elt, env2, fi))
             return res
+        if isinstance(e, ast.Subscript):
+            base = self.ev(e.value, env, fi)
+            if isinstance(e.slice, ast.Slice):
+                lo = self.ev(e.slice.lower, env, fi) if e.slice.lower is not None else None
+                hi = self.ev(e.slice.upper, env, fi) if e.slice.upper is not None else None
+                if isinstance(base, (list, tuple, str)) and e.slice.step is None:
+                    return base[lo:hi]
+                raise Unsupported("slice")
+            idx = self.ev(e.slice, env, fi)
+            if isinstance(idx, Sym):
+                raise Unsupported("node as index")
+            if isinstance(base, (list, tuple, str)) and isinstance(idx, int):
+                try:
+                    return base[idx]
+                except IndexError as err:
+                    raise Unsupported("index out of range") from err
+            if isinstance(base, dict):
+                if idx in base:
+                    return base[idx]
+                raise Unsupported("missing key")
+            raise Unsupported("subscript")
         if isinstance(e, ast.Call):
             return self._call(e, env, fi)
         raise Unsupported(f"expression {type(e).__name__} at {fi.file}:{getattr(e, 'lineno', 0)}")
